@@ -12,7 +12,8 @@
 (***************************************************************************)
 EXTENDS Bits, FiniteSets, TLC, Json
 
-CONSTANTS MaxH, MaxB, MaxDepth, Patterns, Legacy
+CONSTANTS MaxH, MaxB, MaxDepth, Patterns, Legacy,
+          Start       \* "empty": histories from the empty store;  "any": every small layout is an initial state
 H == 1..MaxH
 B == 1..MaxB
 None == [buf |-> 0, s |-> 0, e |-> 0]
@@ -35,6 +36,25 @@ Pad8(bits) == bits \o Zeros(Ceil8(Len(bits)) - Len(bits))
 
 Init == /\ bufs = [b \in B |-> FreeBuf]
         /\ hs = [h \in H |-> None] /\ ghost = [h \in H |-> <<>>] /\ dep = 0
+
+\* Every layout of one or two handles over one or two buffers (ranges over Pos, each buffer owned or borrowed,
+\* the second handle absent / sharing the first buffer / on its own buffer): with MaxDepth = 1 every operation is
+\* tried on every such layout, including those a short history does not reach (a sole owner that starts late in
+\* its buffer, a view behind the end of another, ...).
+Pos == {0, 1, 4, 8, 9, 12, 16}
+Ranges(p) == {r \in Pos \X Pos : r[1] <= r[2] /\ r[2] <= Len(p)}
+InitAny ==
+  \E p1 \in Patterns, p2 \in Patterns, bo1 \in BOOLEAN, bo2 \in BOOLEAN, k \in {"none", "same", "other"} :
+  \E r1 \in Ranges(p1), r2 \in (IF k = "same" THEN Ranges(p1) ELSE IF k = "other" THEN Ranges(p2) ELSE {<<0, 0>>}) :
+    /\ (k # "other" => p2 = p1 /\ ~bo2)            \* unused choices are not multiplied
+    /\ bufs = [b \in B |-> IF b = 1 THEN [bits |-> p1, rc |-> IF k = "same" THEN 2 ELSE 1, borrowed |-> bo1]
+                            ELSE IF b = 2 /\ k = "other" THEN [bits |-> p2, rc |-> 1, borrowed |-> bo2] ELSE FreeBuf]
+    /\ hs = [h \in H |-> IF h = 1 THEN [buf |-> 1, s |-> r1[1], e |-> r1[2]]
+                          ELSE IF h = 2 /\ k # "none" THEN [buf |-> IF k = "same" THEN 1 ELSE 2, s |-> r2[1], e |-> r2[2]] ELSE None]
+    /\ ghost = [h \in H |-> IF h = 1 THEN SubSeq(p1, r1[1] + 1, r1[2])
+                             ELSE IF h = 2 /\ k = "same" THEN SubSeq(p1, r2[1] + 1, r2[2])
+                             ELSE IF h = 2 /\ k = "other" THEN SubSeq(p2, r2[1] + 1, r2[2]) ELSE <<>>]
+    /\ dep = 0
 
 Layout == [bufs |-> [b \in B |-> [bits |-> bufs[b].bits, rc |-> bufs[b].rc, borrowed |-> IF bufs[b].borrowed THEN 1 ELSE 0]], hs |-> hs]
 Emit(op, args) == PrintT(<<"REPLAY", ToJson([pre |-> Layout, op |-> op, args |-> args, post |-> ghost'])>>)
@@ -144,7 +164,7 @@ InsertH == \E h \in H, t \in H, k \in Args : Live(h) /\ Live(t) /\ h # t /\ k <=
 
 Next == dep < MaxDepth /\ dep' = dep + 1 /\ (FromBytes(FALSE) \/ FromBytes(TRUE) \/ DropH \/ CloneH \/ ReadH \/ PeekH \/ SeekH \/ SubstrH
         \/ AppendH \/ InvertH \/ DetachH \/ InsertH)
-Spec == Init /\ [][Next]_vars
+Spec == (IF Start = "any" THEN InitAny ELSE Init) /\ [][Next]_vars
 
 \* C04 on the design: every live handle denotes exactly its abstract bit sequence
 \* (so every operation returned what the plain-sequence operation returns, and no operand changed)
